@@ -35,10 +35,20 @@ def reach(g, n):
 
 def make_case(rng, li, lib):
     g = cfggen.gen_graph(rng, lib, max_nodes=rng.choice([3, 6, 10]))
-    g0 = copy.deepcopy(g)
     n = len(g["nodes"])
+    # some self-contained nodes are obtained by deserialisation (save -> load / state_dict -> from_state_dict): such a
+    # configuration is sealed from the start, and stays frozen like any other sealed one
+    from .c01 import cfgbuild_refs
+    leaves = [k for k, nd in enumerate(g["nodes"]) if nd["meta"] is None and not nd["pre"] and not nd["init"] and nd["task"] is None
+              and not any(cfgbuild_refs(v) for _, v in nd["values"]) and not nd.get("tags") and not nd.get("deps") and nd["cls"] != "LW"]
+    loaded = {}
+    if leaves and rng.random() < 0.4:
+        for k in rng.sample(leaves, min(len(leaves), rng.choice([1, 2]))):
+            loaded[k] = rng.choice(["state", "save"])
+        g["loaded"] = {str(k): v for k, v in loaded.items()}
+    g0 = copy.deepcopy(g)
     ops, expect = [], []
-    sealed = set()
+    sealed = set(loaded)
     for _ in range(rng.choice([4, 8, 12, 16])):
         r = rng.random()
         k = rng.randrange(n)
